@@ -157,16 +157,45 @@ def _load_check(pid: str):
     return _CHECK
 
 
+class CaseTimeout(BaseException):
+    """wall-clock backstop for one case: marks it inconclusive, never a violation"""
+
+
+CASE_TIMEOUT_S = int(os.environ.get("VERIF_CASE_TIMEOUT", "120"))
+
+
+def _on_alarm(signum, frame):
+    raise CaseTimeout()
+
+
 def _worker_init(pid: str) -> None:
+    import resource
+    import signal
+
     from . import driver
 
     driver.init_worker()
     sys.setrecursionlimit(3000)
+    # a runaway allocation in the code under test becomes a MemoryError instead of an OOM kill
+    lim = 6 * 1024 ** 3
+    try:
+        resource.setrlimit(resource.RLIMIT_AS, (lim, lim))
+    except (ValueError, OSError):
+        pass
+    signal.signal(signal.SIGALRM, _on_alarm)
     _load_check(pid)
 
 
 def safe_run_case(check, case) -> Outcome:
-    return check.run_case(case)
+    import signal
+
+    signal.setitimer(signal.ITIMER_REAL, CASE_TIMEOUT_S)
+    try:
+        return check.run_case(case)
+    except CaseTimeout:
+        return Outcome(skip="inconclusive: case exceeded the wall-clock backstop")
+    finally:
+        signal.setitimer(signal.ITIMER_REAL, 0)
 
 
 def _run_unit(args) -> Acc:
@@ -210,7 +239,10 @@ def _run_hypothesis(check, tier: str, seed: int, payload: dict, acc: Acc) -> Non
     )
     @given(strat)
     def prop(case):
-        acc.add(case, safe_run_case(check, case))
+        try:
+            acc.add(case, safe_run_case(check, case))
+        except MemoryError:
+            acc.skips["inconclusive: MemoryError outside the code under test"] += 1
 
     prop()
 
@@ -451,15 +483,21 @@ def main(argv: list[str] | None = None) -> int:
 
     # ---- run -------------------------------------------------------------------------------------
     total = Acc()
+    import concurrent.futures as cf
+
     ctx = mp.get_context("fork")
-    pool = ctx.Pool(NPROC, initializer=_worker_init, initargs=(pid,))
+    pool = cf.ProcessPoolExecutor(NPROC, mp_context=ctx, initializer=_worker_init, initargs=(pid,))
+    unknown, known_hits = [], collections.OrderedDict()
     try:
-        for acc in pool.imap_unordered(_run_unit, units, chunksize=1):
-            total.merge(acc)
+        futs = [pool.submit(_run_unit, u) for u in units]
+        for fut in cf.as_completed(futs):
+            try:
+                total.merge(fut.result())
+            except Exception as e:  # BrokenProcessPool: a worker died (killed by the OS)
+                total.harness_errors.append(f"worker failure: {type(e).__name__}: {e}")
         harness_failed = bool(total.harness_errors)
 
         # ---- triage: known / unknown, shrink unknown ---------------------------------------------
-        unknown, known_hits = [], collections.OrderedDict()
         for sig, b in sorted(total.viol.items()):
             k = match_known(sig, opens)
             if k:
@@ -471,10 +509,18 @@ def main(argv: list[str] | None = None) -> int:
         if unknown and not args.no_shrink:
             budget = 40.0 if tier == "quick" else 240.0
             budget = max(5.0, min(budget, budget * 16 / max(16, len(unknown))))
-            unknown = pool.map(_shrink_bucket, [(pid, b, budget) for b in unknown[:200]], chunksize=1) + unknown[200:]
+            try:
+                unknown = list(pool.map(_shrink_bucket, [(pid, b, budget) for b in unknown[:200]])) + unknown[200:]
+            except Exception as e:
+                total.harness_errors.append(f"shrink failure: {type(e).__name__}: {e}")
     finally:
-        pool.terminate()
-        pool.join()
+        procs = list((getattr(pool, "_processes", None) or {}).values())
+        pool.shutdown(wait=False, cancel_futures=True)
+        for p in procs:
+            try:
+                p.kill()
+            except Exception:
+                pass
 
     # ---- report -----------------------------------------------------------------------------------
     rc = 0
@@ -540,9 +586,9 @@ def main(argv: list[str] | None = None) -> int:
 
     if harness_failed:
         for e in total.harness_errors[:5]:
-            print(e, file=sys.stderr)
+            print(e[-3000:], file=sys.stderr)
         print(f"HARNESS-ERROR property={pid} {len(total.harness_errors)} work unit(s) failed")
-        return 2
+        return 1 if rc == 1 else 2
     if floor_msgs and rc == 0:
         print(f"HARNESS-ERROR property={pid} generator regression: " + "; ".join(floor_msgs))
         return 2
